@@ -22,7 +22,7 @@ RULE = (
 )
 ASSUMPTIONS = [
     "degenerate inputs (no decoys, constant scores, <50 of either label) are outside the statement",
-    "permutation equivariance within rtol 1e-7 (KDE / histogram sums depend on summation order); everything else exact (monotonicity +1e-12)",
+    "permutation equivariance within 1e-9 for qvality and 2e-3 for the KDE / histogram + NNLS estimators (summation-order noise amplified by the NNLS active set; seen up to 8e-5); everything else exact (monotonicity +1e-12)",
     "qvality_bin needs an external binary that is absent: reported, not judged",
     "an all-inf from_counts result (best PSM is a decoy) is 'monotone and non-negative' as worded and only counted",
 ]
@@ -150,7 +150,11 @@ def _run_alg(case, fn, algname, lo, hi, name):
             res.count("permuted_calls")
             if c2.ok:
                 v2 = np.asarray(c2.value, dtype=float)
-                if v2.shape != v.shape or not np.allclose(v2, v[p], rtol=1e-7, atol=1e-9):
+                # qvality sorts internally (order independent to the last bit); the KDE / histogram + NNLS
+                # estimators amplify summation-order noise up to ~1e-4 (active set changes), a misalignment
+                # would show as O(0.1..1) differences
+                tol = 1e-9 if algname == "qvality" else 2e-3
+                if v2.shape != v.shape or not np.allclose(v2, v[p], rtol=tol, atol=tol):
                     k = int(np.argmax(np.abs(v2 - v[p]))) if v2.shape == v.shape else -1
                     res.violate("misaligned", algname, worst=k, a=float(v2[k]) if k >= 0 else None,
                                 b=float(v[p][k]) if k >= 0 else None, **extra)
